@@ -15,6 +15,10 @@ from parsedump import dist_dump, parse_op
 from rng import QuantileRNG
 
 
+# log_normal's CDF is SciPy's generic numerical integration of the density (quad, epsabs 1.49e-8 per evaluation): two evaluations
+INTEGRATED_ABS = 1e-7
+
+
 def interval(value, previous):
     r = RememberAdd(previous)
     r += (value - previous)
@@ -101,7 +105,7 @@ def main():
                 ck.evaluations += 1
                 if p < -1e-12:
                     ck.fail("negative-probability", dict(inp, interval=[a, b]), str(p))
-                if not close(p, want, 1e-6, 1e-9):
+                if not close(p, want, 1e-6, INTEGRATED_ABS if fam == "log_normal" else 1e-9):
                     ck.fail("interval-probability", dict(inp, interval=[a, b]), f"prob_mw = {p!r}, F(value) - F(previous) = {want!r}")
                     break
                 tot += p
@@ -122,7 +126,7 @@ def main():
                     want = ref.cdf(b) - ref.cdf(a)
                     ck.evaluations += 1
                     ck.count("edge-intervals")
-                    if not close(p, want, 1e-6, 1e-9):
+                    if not close(p, want, 1e-6, INTEGRATED_ABS if fam == "log_normal" else 1e-9):
                         ck.fail("interval-probability", dict(inp, interval=[a, b]), f"prob_mw = {p!r}, F(value) - F(previous) = {want!r}")
                 whole = float(d.prob_mw(interval(pts[-1], pts[0])))
                 if not close(tot, whole, 1e-7, 1e-9):
